@@ -77,6 +77,7 @@ func (wp *workerPool) Stop() {
 	}
 	close(wp.stopCh)
 	wp.stopCh = nil
+	verifPoint("wp.stop.enter")
 
 	// Stop all the workers waiting for incoming connections.
 	// Do not wait for busy workers - they will stop after
@@ -133,6 +134,7 @@ func (wp *workerPool) clean(scratch *[]*workerChan) {
 	}
 	wp.ready = ready[:m]
 	wp.lock.Unlock()
+	verifPoint("wp.clean.unlocked")
 
 	// Notify obsolete workers to stop.
 	// This notification must be outside the wp.lock, since ch.ch
@@ -150,6 +152,7 @@ func (wp *workerPool) Serve(c net.Conn) bool {
 	if ch == nil {
 		return false
 	}
+	verifPoint("wp.serve.beforesend")
 	ch.ch <- c
 	return true
 }
@@ -186,6 +189,7 @@ func (wp *workerPool) getCh() *workerChan {
 		wp.ready = ready[:n]
 	}
 	wp.lock.Unlock()
+	verifPoint("wp.getch.unlocked")
 
 	if ch == nil {
 		if !createWorker {
@@ -202,6 +206,7 @@ func (wp *workerPool) getCh() *workerChan {
 }
 
 func (wp *workerPool) release(ch *workerChan) bool {
+	verifPoint("wp.release.enter")
 	ch.lastUseTime = time.Now()
 	wp.lock.Lock()
 	if wp.mustStop {
@@ -246,6 +251,7 @@ func (wp *workerPool) workerFunc(ch *workerChan) {
 		}
 	}
 
+	verifPoint("wp.worker.exit")
 	wp.lock.Lock()
 	wp.workersCount--
 	wp.lock.Unlock()
